@@ -481,6 +481,32 @@ mut("c07-commit-body-dblink-late", "C07", "seqio/genbank_subparsers.go", "\t\tst
 mut("c02-fill-silent-append-idiom", "C02", "location.go", "func (joined Joined) Shift(i, n int) Location {\n\tlocs := make([]Location, len(joined))\n\tfor j, loc := range joined {\n\t\tlocs[j] = loc.Shift(i, n)\n\t}\n\treturn Join(locs...)\n}", "func (joined Joined) Shift(i, n int) Location {\n\tvar locs []Location\n\tfor _, loc := range joined {\n\t\tlocs = append(locs, loc.Shift(i, n))\n\t}\n\treturn Join(locs...)\n}", silent=True, note="the append idiom builds the same list")
 mut("c02-fill-append-skips", "C02", "location.go", "func (joined Joined) Shift(i, n int) Location {\n\tlocs := make([]Location, len(joined))\n\tfor j, loc := range joined {\n\t\tlocs[j] = loc.Shift(i, n)\n\t}\n\treturn Join(locs...)\n}", "func (joined Joined) Shift(i, n int) Location {\n\tvar locs []Location\n\tfor _, loc := range joined {\n\t\tif loc.Len() == 0 {\n\t\t\tcontinue\n\t\t}\n\t\tlocs = append(locs, loc.Shift(i, n))\n\t}\n\treturn Join(locs...)\n}", ["FILL|gts.Joined.Shift|append#1"])
 
+# ---------------------------------------------------------------- STATELESS (every library property)
+mut("c09-stateless-flatten-buffer", "C09", "region.go",
+    "func Minimize(arg Region) []Segment {\n\tss := flattenRegion(arg)\n",
+    "var flattenScratch []Segment\n\nfunc Minimize(arg Region) []Segment {\n\tflattenScratch = append(flattenScratch[:0], flattenRegion(arg)...)\n\tss := flattenScratch\n",
+    ["STATELESS|gts.Minimize|flattenScratch"], note="a scratch buffer kept between calls: an earlier result changes under a later call")
+mut("c09-stateless-silent-local-scratch", "C09", "region.go",
+    "func Minimize(arg Region) []Segment {\n\tss := flattenRegion(arg)\n",
+    "func Minimize(arg Region) []Segment {\n\tvar scratch []Segment\n\tscratch = append(scratch[:0], flattenRegion(arg)...)\n\tss := scratch\n",
+    silent=True, note="the same buffer as a local is fresh on every call")
+mut("c17-stateless-fasta-scratch", "C17", "seqio/fasta.go",
+    "\tdata := bytes.Join(lines, nil)\n",
+    "\tfastaScratch = append(fastaScratch[:0], bytes.Join(lines, nil)...)\n\tdata := fastaScratch\n",
+    ["STATELESS|gts/seqio.FastaParser$1|fastaScratch"], old2="// FastaParser attempts to parse a single FASTA file entry.\n", new2="var fastaScratch []byte\n\n// FastaParser attempts to parse a single FASTA file entry.\n")
+mut("c18-stateless-table-patched", "C18", "nucleotide.go",
+    'func Transcribe(seq Sequence) Sequence {\n\tp := replaceBytes(\n\t\tseq.Bytes(),\n\t\t[]byte("ACGTURYKMBDHVacgturykmbdhv"),\n\t\t[]byte("UGCAAYRMKVHDBugcaayrmkvhdb"),\n\t)',
+    'var transcriptCodes = []byte("UGCAAYRMKVHDBugcaayrmkvhdb")\n\nfunc Transcribe(seq Sequence) Sequence {\n\tcodes := transcriptCodes[:]\n\tcodes[0] = \'U\'\n\tp := replaceBytes(\n\t\tseq.Bytes(),\n\t\t[]byte("ACGTURYKMBDHVacgturykmbdhv"),\n\t\tcodes,\n\t)',
+    ["STATELESS|gts.Transcribe|transcriptCodes"], note="a store through a local alias of a package-level table")
+mut("c18-stateless-silent-readonly-table", "C18", "sequence.go",
+    "func bytesIndexAll(s, sep []byte) []int {\n",
+    "var allHits = -1\n\nfunc bytesIndexAll(s, sep []byte) []int {\n\t_ = allHits\n",
+    silent=True, note="a package variable that is only read is not state")
+mut("c11-stateless-memo", "C11", "sequence.go",
+    "func bytesIndexAll(s, sep []byte) []int {\n\tindex := suffixarray.New(s)\n",
+    "var lastIndex *suffixarray.Index\n\nfunc bytesIndexAll(s, sep []byte) []int {\n\tindex := suffixarray.New(s)\n\tlastIndex = index\n",
+    ["STATELESS|gts.bytesIndexAll|lastIndex"])
+
 if __name__ == "__main__":
     here = os.path.dirname(os.path.abspath(__file__))
     ids = [m["id"] for m in M]
